@@ -378,3 +378,87 @@ def borrow(run: Run, as_rule: str, fn, *args, only_rules=None):
     for e in sub.errors:
         run.errors.append(f'{as_rule} <- {e}')
     return sub
+
+
+# ---------------------------------------------------------------------------------------------------
+# normalised views of functions (helper calls inlined, guard clauses nested) and flattened path conditions
+# ---------------------------------------------------------------------------------------------------
+_norm_cache: dict = {}
+
+
+def normalized_method(src, cls_name: str, method: str, depth: int = 2):
+    """the method with calls of helpers of its own class / module inlined and guard clauses turned into nesting"""
+    from ..inline import inline_methods, nest_guards, class_resolver
+    key = (id(src), cls_name, method, depth)
+    if key in _norm_cache:
+        return _norm_cache[key]
+    ci = src.cls(cls_name)
+    fi = ci.methods.get(method) or src.find_method(ci, method)
+    if fi is None:
+        raise AnalysisError('common', f'{cls_name}.{method} not found')
+    fn = nest_guards(inline_methods(fi.node, class_resolver(src, ci, fi), depth=depth))
+    _norm_cache[key] = (fi, fn)
+    return fi, fn
+
+
+def flat_conditions(conds) -> list:
+    """[(atomic test, polarity)]: conjunctions that hold are split, negations are folded into the polarity, disjunctions that
+    do not hold are split"""
+    out = []
+
+    def add(t, pol):
+        if isinstance(t, ast.UnaryOp) and isinstance(t.op, ast.Not):
+            add(t.operand, not pol)
+        elif isinstance(t, ast.BoolOp) and isinstance(t.op, ast.And) and pol:
+            for v in t.values:
+                add(v, True)
+        elif isinstance(t, ast.BoolOp) and isinstance(t.op, ast.Or) and not pol:
+            for v in t.values:
+                add(v, False)
+        else:
+            out.append((t, pol))
+    for t, pol in conds:
+        add(t, pol)
+    return out
+
+
+def strict_get_lookup(src, fi, gcall: ast.Call):
+    """`V = <map>.get(key, SENTINEL)` followed by `if V is SENTINEL: raise <library exception>`: as strict as a guarded subscript.
+    Returns the name V when the lookup is of that form, else None."""
+    from ..callgraph import raises_of
+    from ..runtime import may_complete_normally
+    from ..paths import parent_map
+    lib = library_exceptions(src)
+    fn = fi.node
+    parents = parent_map(fn)
+    st = parents.get(gcall)
+    if not (isinstance(st, ast.Assign) and len(st.targets) == 1 and isinstance(st.targets[0], ast.Name)):
+        return None
+    v = st.targets[0].id
+    d = gcall.args[1] if len(gcall.args) > 1 else next((k.value for k in gcall.keywords if k.arg == 'default'), None)
+    if d is None:
+        dtxt = 'None'
+    elif isinstance(d, ast.Constant) and d.value is None:
+        dtxt = 'None'
+    elif isinstance(d, ast.Name):
+        # module-level sentinel: NAME = object()
+        ok = any(isinstance(m, ast.Assign) and any(isinstance(t, ast.Name) and t.id == d.id for t in m.targets) and
+                 isinstance(m.value, ast.Call) and isinstance(m.value.func, ast.Name) and m.value.func.id == 'object'
+                 for m in fi.module.tree.body)
+        if not ok:
+            return None
+        dtxt = d.id
+    else:
+        return None
+    for n in ast.walk(fn):
+        if isinstance(n, ast.If):
+            t = ast.unparse(n.test)
+            if t in (f'{v} is {dtxt}', f'{dtxt} is {v}', f'{v} == {dtxt}') :
+                rs = raises_of(ast.Module(body=n.body, type_ignores=[]))
+                if rs and all(e in lib for e, _ in rs) and not may_complete_normally(n.body):
+                    return v
+            if t in (f'{v} is not {dtxt}', f'{v} != {dtxt}') and n.orelse:
+                rs = raises_of(ast.Module(body=n.orelse, type_ignores=[]))
+                if rs and all(e in lib for e, _ in rs) and not may_complete_normally(n.orelse):
+                    return v
+    return None
